@@ -1048,7 +1048,7 @@ def run_derived(cfg, acc, depth, only=None, names=None):
         if names is not None and name not in names:
             continue
         kind = type(base).__name__[0]
-        for w in (False, True):
+        for w in (False, True, 'source'):
             seqs = [(i,) for i in range(len(DERIVE_OPS))]
             if depth >= 2:
                 seqs += [(i, j) for i in range(len(DERIVE_OPS)) for j in range(len(DERIVE_OPS)) if i != j]
@@ -1064,7 +1064,7 @@ def run_derived(cfg, acc, depth, only=None, names=None):
                     r = outcome(lambda: DERIVE_OPS[i][1](r[1]))
                     if r[0] != 'ok':
                         break
-                    if w:
+                    if w is True:
                         warm(r[1])
                 acc.case(case, cls='derived/%s/%s/%d' % (cfg_name(cfg), kind, len(seq)))
                 acc.traces += 1
@@ -1177,7 +1177,7 @@ def run_derived_paths(cfg, acc, only=None, names=None):
     for name, mkp in path_sources().items():
         if names is not None and name not in names:
             continue
-        for w in (False, True):
+        for w in (False, True, 'source'):
             seqs = [(i,) for i in range(len(PATH_DERIVE_OPS))] + \
                    [(i, j) for i in range(len(PATH_DERIVE_OPS)) for j in range(len(PATH_DERIVE_OPS))]
             for seq in seqs:
@@ -1192,7 +1192,7 @@ def run_derived_paths(cfg, acc, only=None, names=None):
                     r = outcome(lambda: PATH_DERIVE_OPS[i][1](r[1]))
                     if r[0] != 'ok' or not isinstance(r[1], Path) or len(r[1]) == 0:
                         break
-                    if w:
+                    if w is True:
                         warm_path(r[1])
                 if r[0] != 'ok' or not isinstance(r[1], Path) or len(r[1]) == 0:
                     acc.filt('derive_op_refused_or_empty')
